@@ -87,6 +87,32 @@ pub proof fn sum_all_concat(g: &ScopeGraph, a: Seq<ScopeId>, b: Seq<ScopeId>)
     }
 }
 
+// ---- the walk as a function: WHICH registration is designated (first hit in breadth-first order) -----------------
+/// popping `q[0]` and queueing its parents strictly decreases the measure (on a well-formed graph)
+pub proof fn pop_decreases(g: &ScopeGraph, q: Seq<ScopeId>)
+    requires wf_graph(g), q.len() > 0
+    ensures sum_all(g, q.drop_first() + parent_seq(g, q[0])) < sum_all(g, q)
+{
+    sum_all_concat(g, q.drop_first(), parent_seq(g, q[0]));
+    sum_w_is_sum_all(g, q[0].0 as nat, parent_seq(g, q[0]));
+}
+/// what the breadth-first walk returns when started with the queue `q`
+pub open spec fn bfs(db: &ConstructibleDb, g: &ScopeGraph, t: &Type, q: Seq<ScopeId>) -> Option<(ComponentId, ConsumptionMode)>
+    decreases sum_all(g, q) when wf_graph(g) via bfs_decreases
+{
+    if q.len() == 0 { None }
+    else if hit(db, q[0], t) is Some { hit(db, q[0], t) }
+    else { bfs(db, g, t, q.drop_first() + parent_seq(g, q[0])) }
+}
+#[via_fn]
+proof fn bfs_decreases(db: &ConstructibleDb, g: &ScopeGraph, t: &Type, q: Seq<ScopeId>) {
+    if q.len() > 0 && !(hit(db, q[0], t) is Some) { pop_decreases(g, q); }
+}
+/// the registration the blueprint designates for type `t` as seen from scope `s` (None: no constructor in scope)
+pub open spec fn designated(db: &ConstructibleDb, g: &ScopeGraph, s: ScopeId, t: &Type) -> Option<(ComponentId, ConsumptionMode)> {
+    bfs(db, g, t, seq![s])
+}
+
 // ---- facts about `anc` ----------------------------------------------------------------------------------------
 pub proof fn anc_zero(g: &ScopeGraph, s0: ScopeId, p: ScopeId)
     ensures anc(g, s0, 0, p) == (p == s0)
@@ -169,3 +195,21 @@ pub proof fn latest_registration_wins(pre: &ConstructiblesInScope, post: &Constr
     requires !is_template(output), post.concrete@ == pre.concrete@.insert(canon(output), id)
     ensures lookup_in(post, output) == Some((id, ConsumptionMode::Move))
 {}
+
+// ---- C08, one rule: "a singleton that depends on a request-scoped type" -------------------------------------------------
+/// input `j` of component `id` is designated a request-scoped constructor
+pub open spec fn input_offends(cdb: &ConstructibleDb, db: &ComponentDb, id: ComponentId, j: int) -> bool {
+    0 <= j < inputs_of(db, id).len()
+    && (designated(cdb, db_graph(db), scope_of(db, id), inputs_of(db, id)[j]) matches Some(d) && lifecycle_of(db, d.0) == Lifecycle::RequestScoped)
+}
+pub open spec fn any_input_offends(cdb: &ConstructibleDb, db: &ComponentDb, id: ComponentId, m: int) -> bool {
+    exists |j: int| 0 <= j < m && #[trigger] input_offends(cdb, db, id, j)
+}
+/// component number `i` of the database is a singleton one of whose inputs is built per request
+pub open spec fn breaks_the_singleton_rule(cdb: &ConstructibleDb, db: &ComponentDb, i: int) -> bool {
+    0 <= i < db_ids(db).len() && lifecycle_of(db, db_ids(db)[i]) == Lifecycle::Singleton
+    && any_input_offends(cdb, db, db_ids(db)[i], inputs_of(db, db_ids(db)[i]).len() as int)
+}
+pub open spec fn any_singleton_offends(cdb: &ConstructibleDb, db: &ComponentDb, n: int) -> bool {
+    exists |i: int| 0 <= i < n && #[trigger] breaks_the_singleton_rule(cdb, db, i)
+}
